@@ -69,7 +69,9 @@ def gen_case(rng: SimRng, tier: str) -> dict:  # noqa: ARG001
             if r.random() < 0.35:
                 op["fault"] = {"kind": r.choice(["unsuccessful", "nan"]), "at_step": r.choice([0, 0, 1, 2, 3])}
             if r.random() < 0.3:
-                op["pre_simulate"] = r.choice([0.5, 2.0, 10.0])  # a successful segment precedes the search
+                # a successful segment precedes the search; sometimes it ends a hair before a multiple
+                # of the search's own polling interval (100), while still in the transient
+                op["pre_simulate"] = r.choice([0.5, 2.0, 10.0, 99.9999999, 99.9999999999986, 199.99999, 50.0])
             ops.append(op)
         elif x < 0.85 and fam in STABLE:
             # several searches on one simulator
